@@ -1,8 +1,9 @@
 """C15 — staged compilation through JSON equals one-shot compile.
 The worker's `staged` op runs source -> PL -> JSON -> PL -> RQ -> JSON -> RQ -> SQL with the
 public json::* functions and compares values (PartialEq), re-serialised bytes and final output."""
+import re
 from .. import core, corpus
-from ..gen import grel
+from ..gen import grel, gfeat
 
 FEATURE_PROGRAMS = [
     "from t | select {i = 9223372036854775807, j = -9223372036854775807, f = 0.1, g = 1e300, h = 5e-324, k = 1.7976931348623157e308}",
@@ -65,8 +66,12 @@ def _shard(items):
             if not stable:
                 obs["unstable_skipped"] += 1
                 continue
+            reason = ""
+            if st.get("errors") and st.get("stage") in ("to_pl", "to_rq", "from_pl", "from_rq"):
+                # the JSON hop itself failed: name why (e.g. the deserialiser's recursion limit)
+                reason = ":" + re.sub(r"\d+", "N", st["errors"][0].get("reason", "?"))[:50].replace(" ", "_")
             for i in issues:
-                viols.append({"property": "C15", "symptom": i["kind"], "shape": st.get("stage", "-") + ":" + (target or "none"),
+                viols.append({"property": "C15", "symptom": i["kind"], "shape": st.get("stage", "-") + reason + ":" + (target or "none"),
                               "witness": {"src": src, "target": target, "format": fmt},
                               "detail": "direct=%s staged=%s" % (str(r.get("direct"))[:300], str(st)[:300])})
     w.close()
@@ -77,8 +82,8 @@ def _shard(items):
 def run(tier, seed):
     run = core.Run("C15", tier, seed)
     rng = core.shard_rng(seed, "C15", 0)
-    srcs = list(FEATURE_PROGRAMS) + corpus.sources()
-    n_rel = 300 if tier == "quick" else 6000
+    srcs = list(FEATURE_PROGRAMS) + corpus.sources() + [src for _, src in gfeat.programs() if len(src) < 3000]
+    n_rel = 1200 if tier == "quick" else 6000
     for prof in ("core", "window", "project"):
         srcs += [grel.random_program_text(rng, prof) for _ in range(n_rel // 3)]
     targets = [None] + ["sql." + d for d in core.DIALECTS]
